@@ -10,6 +10,7 @@
 -/
 import DymVerif.Lemmas.PacketsOnceOps
 import DymVerif.Lemmas.PacketsIndex
+import DymVerif.Lemmas.PacketsFork
 import DymVerif.Lemmas.Base64
 namespace DymVerif.C04
 open DymVerif DymVerif.Keys DymVerif.Packets
@@ -244,20 +245,11 @@ def IdxOk (s : St) : Prop :=
   (∀ p ∈ s.packets, p.status = .pending → (p.target, pkey p) ∈ s.byAddr) ∧
   (∀ e ∈ s.byAddr, ∃ p ∈ s.packets, pkey p = e.2 ∧ p.status = .pending ∧ p.target = e.1)
 
-/- **pending_retrievable (by beneficiary address)** — full statement, FALSE of the current code:
-
-     theorem pending_retrievable_by_address (s0) (h0 : Inv04 s0) (hi : IdxOk s0) (ops : List Op) :
-         IdxOk (run s0 ops)        -- hence `pendingByAddr (run s0 ops) a` lists exactly a's pending packets
-
-   `finalizeRollappPacket` calls `writeRecvAck`, whose `RestoreOriginalTransferTarget()` rewrites the
-   transfer data through the shared `*Packet` pointer; `UpdateRollappPacketAfterFinalization` then
-   deletes the index entry of the ORIGINAL recipient instead of the fulfiller's.  The fulfiller's entry
-   stays behind and points to a deleted key, so `GetPendingPacketsByAddress(fulfiller)` fails with
-   "rollapp packet does not exist" — also for the fulfiller's other, still pending packets.  (The
-   hard-fork hook has the same aliasing for fulfilled ON_ACK / ON_TIMEOUT packets.)
-   Below: the witness (replayed on the real code by the harness monitor
-   `C04/pending_retrievable/by-address-query-fails-for-beneficiary-of-pending-packet`) and the
-   statement for packets that were never fulfilled. -/
+/- **pending_retrievable (by beneficiary address)** — was false before the fix of
+   `RestoreOriginalTransferTarget` (it rewrote the transfer data through the shared `*Packet` pointer, so
+   `UpdateRollappPacketAfterFinalization` / `DeleteRollappPacket` removed the ORIGINAL recipient's index
+   entry and left the fulfiller's behind, pointing to a deleted key).  The former counterexample is kept
+   below as an `example` of the repaired behaviour. -/
 
 def cexChans : List Chan := [{ hubId := [99, 48], cpId := [99, 55], rollapp := some 0, canonical := true }]
 def cexInit : St := initSt 3 1000 ⟨0⟩ ⟨0⟩ ⟨0⟩ [114] [115] cexChans
@@ -268,9 +260,11 @@ def cexOps : List Op :=
   [ .recv 0 1 5 (cexRecv 1), .recv 0 2 6 (cexRecv 2), .fulfill 2 (rollappPacketKey .pending [114] 5 .onRecv [99, 55] 1) 0,
     .addState [114] 10, .finalizeState [114], .finalize 0 [114] 5 .onRecv [99, 55] 1 ]
 
-theorem pending_retrievable_by_address_counterexample :
-    (∃ p ∈ (run cexInit cexOps).packets, p.status = .pending ∧ p.target = 2) ∧ pendingByAddr (run cexInit cexOps) 2 = none := by
-  decide
+/-- the history that used to leave a dangling entry for the fulfiller a2: its other pending packet is
+    still returned by the by-address query, and the finalized packet keeps naming the fulfiller -/
+example : pendingByAddr (run cexInit cexOps) 2 = some ((run cexInit cexOps).packets.filter (·.status == .pending)) ∧
+    ((run cexInit cexOps).packets.map (fun p => (p.status, p.target, p.orig))) = [(.pending, 2, none), (.finalized, 2, some 1)] ∧
+    (run cexInit cexOps).byAddr.length = 1 := by decide
 
 /-- `List.mapM` in `Option`: succeeds when every element does, and returns exactly the images -/
 theorem mapM_option {α β : Type} (f : α → Option β) : ∀ (l : List α), (∀ x ∈ l, ∃ y, f x = some y) →
@@ -312,12 +306,12 @@ theorem pendingByAddr_exact {s : St} (hk : KeysNodup s.packets) (h : IdxOk s) (a
   · rintro ⟨hp, hs, ht⟩
     exact ⟨(p.target, pkey p), List.mem_filter.mpr ⟨fwd p hp hs, by simp [ht]⟩, getPacket_of_mem hk hp⟩
 
-/-- **pending_retrievable (by beneficiary address), partial** — in every history without eIBC
-    fulfilment (uint64 heights and sequences; channel table well formed, ids without '/': the
-    hypotheses of C19's key injectivity) the index is exact and the by-address query returns exactly
-    the address's pending packets. -/
-theorem pending_retrievable_by_address_partial (s0 : St) (h4 : Inv04 s0) (hi : IdxInv s0) (ops : List Op)
-    (hp : ∀ o ∈ ops, PlainOp o) :
+/-- **pending_retrievable (by beneficiary address)** — in every history (uint64 heights and
+    sequences; channel table well formed, ids without '/': the hypotheses of C19's key injectivity)
+    the index is exact and the by-address query returns exactly the address's pending packets, where
+    the beneficiary of a fulfilled packet is the fulfiller / LP. -/
+theorem pending_retrievable_by_address (s0 : St) (h4 : Inv04 s0) (hi : IdxInv s0) (ops : List Op)
+    (hp : ∀ o ∈ ops, BoundedOp o) :
     IdxOk (run s0 ops) ∧
     ∀ a, ∃ l, pendingByAddr (run s0 ops) a = some l ∧
       ∀ p, p ∈ l ↔ (p ∈ (run s0 ops).packets ∧ p.status = .pending ∧ p.target = a) := by
@@ -330,13 +324,12 @@ theorem idx_init (n : Nat) (fund : Int) (a b c : Dec) (r0 r1 : Bytes) (ch : List
     (hc : CfgOk (initSt n fund a b c r0 r1 ch)) : IdxInv (initSt n fund a b c r0 r1 ch) where
   cfg := hc
   pk := by intro q hq; cases hq
-  orig := by intro q hq; cases hq
   fwd := by intro q hq; cases hq
   bwd := by intro e he; cases he
 
-/-- finalizing a packet whose target was never rewritten removes exactly its own index entry -/
+/-- finalizing a packet removes exactly the index entry of its current beneficiary -/
 theorem finalize_removes_own_index_entry (s s' : St) (k : Bytes) (p : Packet)
-    (hp : getPacket s k = some p) (ho : p.orig = none) (hf : finalizePacket s k = .ok s') :
+    (hp : getPacket s k = some p) (hf : finalizePacket s k = .ok s') :
     s'.byAddr = s.byAddr.filter (fun e => !(e.1 == p.target && e.2 == pkey p)) := by
   unfold finalizePacket at hf
   rw [hp] at hf
@@ -347,18 +340,114 @@ theorem finalize_removes_own_index_entry (s s' : St) (k : Bytes) (p : Packet)
     split at hf
     · cases hf
     · cases hf
-      have ht : (finalizedRecord p (releaseEffect s p).2).target = p.target := by
-        unfold finalizedRecord restoreTarget
-        rw [ho]
-        split <;> rfl
-      have hb := (frame_afterPacketStatusUpdated
-        (setPacket (delPacket (delByAddr (logRelease (releaseEffect s p).1 p (some p.rollappId) true)
-          (finalizedRecord p (releaseEffect s p).2).target (pkey (finalizedRecord p (releaseEffect s p).2)))
-          (pkey (finalizedRecord p (releaseEffect s p).2))) (flipped (finalizedRecord p (releaseEffect s p).2)))
-        (pkey (finalizedRecord p (releaseEffect s p).2)) (pkey (flipped (finalizedRecord p (releaseEffect s p).2))) Status.finalized).byAddr
-      rw [hb]
-      simp only [setPacket_byAddr, delPacket_byAddr, delByAddr, logRelease, ht, pkey_finalizedRecord]
+      rw [(frame_afterPacketStatusUpdated _ _ _ _).byAddr]
+      show (delByAddr (logRelease (releaseEffect s p).1 p (some p.rollappId) true) p.target (pkey p)).byAddr = _
+      simp only [delByAddr, logRelease]
       rw [(frame_releaseEffect s p).byAddr]
+
+-- ================================================================== C03 over M-Packets: the hard-fork hook
+-- (delayedack `OnHardFork(rollapp, lastValid)` = `onHardFork s rid lv`; the clauses of C03 that concern packets)
+
+/-- the fork range in terms of the packet's fields (C19's `range_from_height_exact`): pending, this
+    rollapp, proof height in `[lv+1, 2^64-1)` — the single height 2^64-1 is out of the range's reach -/
+theorem forkRange_fields (rid : Bytes) (lv : Nat) (p : Packet) (hr : sep ∉ rid) (hr' : sep ∉ p.rollappId)
+    (hlv : lv + 1 < 2 ^ 64) (hph : p.proofHeight < 2 ^ 64) :
+    forkRange rid lv (pkey p) = true ↔
+      p.status = .pending ∧ p.rollappId = rid ∧ lv + 1 ≤ p.proofHeight ∧ p.proofHeight < 2 ^ 64 - 1 := by
+  unfold forkRange pkey
+  rw [Nat.mod_eq_of_lt hlv]
+  exact C19.range_from_height_exact p.status rid p.rollappId (lv + 1) p.proofHeight p.ptype p.srcChan p.seq hr hr' hlv hph
+
+/-- **fork_removes_above** — after the hook no stored packet lies in the fork range … -/
+theorem fork_removes_range (s : St) (rid : Bytes) (lv : Nat) :
+    ∀ p ∈ (onHardFork s rid lv).packets, forkRange rid lv (pkey p) = false := by
+  intro p hp
+  rw [onHardFork_eq, foldl_revert_packets] at hp
+  obtain ⟨hmem, hall⟩ := List.mem_filter.mp hp
+  cases hf : forkRange rid lv (pkey p) with
+  | false => rfl
+  | true =>
+    have hv : p ∈ forkVictims s rid lv := List.mem_filter.mpr ⟨hmem, hf⟩
+    have := List.all_eq_true.mp hall p hv
+    simp at this
+
+/-- … i.e. no pending packet of that rollapp with a proof height above `lv` (up to the documented
+    edge 2^64-1) is left -/
+theorem fork_removes_above_height (s : St) (rid : Bytes) (lv : Nat) (hr : sep ∉ rid) (hlv : lv + 1 < 2 ^ 64) :
+    ∀ p ∈ (onHardFork s rid lv).packets, sep ∉ p.rollappId → p.proofHeight < 2 ^ 64 →
+      ¬ (p.status = .pending ∧ p.rollappId = rid ∧ lv < p.proofHeight ∧ p.proofHeight < 2 ^ 64 - 1) := by
+  intro p hp hs hph hcon
+  have := fork_removes_range s rid lv p hp
+  rw [(forkRange_fields rid lv p hr hs hlv hph).mpr ⟨hcon.1, hcon.2.1, hcon.2.2.1, hcon.2.2.2⟩] at this
+  cases this
+
+/-- **fork_keeps_others** — packets outside the range (finalized, other rollapps, proof height at or
+    below `lv`) are untouched -/
+theorem fork_keeps_others (s : St) (rid : Bytes) (lv : Nat) :
+    ∀ q ∈ s.packets, forkRange rid lv (pkey q) = false → q ∈ (onHardFork s rid lv).packets := by
+  intro q hq hf
+  rw [onHardFork_eq, foldl_revert_packets]
+  refine List.mem_filter.mpr ⟨hq, List.all_eq_true.mpr ?_⟩
+  intro p hp
+  have hpf := (List.mem_filter.mp hp).2
+  simp only [bne_iff_ne, ne_eq]
+  intro hk
+  rw [hk, hpf] at hf
+  cases hf
+
+theorem fork_keeps_at_or_below (s : St) (rid : Bytes) (lv : Nat) (hr : sep ∉ rid) (hlv : lv + 1 < 2 ^ 64) :
+    ∀ q ∈ s.packets, sep ∉ q.rollappId → q.proofHeight < 2 ^ 64 →
+      (q.status = .finalized ∨ q.rollappId ≠ rid ∨ q.proofHeight ≤ lv) → q ∈ (onHardFork s rid lv).packets := by
+  intro q hq hs hph hc
+  apply fork_keeps_others s rid lv q hq
+  cases hf : forkRange rid lv (pkey q) with
+  | false => rfl
+  | true =>
+    obtain ⟨h1, h2, h3, _⟩ := (forkRange_fields rid lv q hr hs hlv hph).mp hf
+    rcases hc with h | h | h
+    · rw [h1] at h; cases h
+    · exact absurd h2 h
+    · omega
+
+/-- **fork_clears_receipts** — every reverted received packet has no receipt afterwards (it can be delivered again) -/
+theorem fork_clears_receipts (s : St) (rid : Bytes) (lv : Nat) :
+    ∀ p ∈ forkVictims s rid lv, (p.ptype == .onRecv) = true → (p.chan, p.seq) ∉ (onHardFork s rid lv).receipts := by
+  intro p hp hr hm
+  rw [onHardFork_eq, foldl_revert_receipts] at hm
+  have := List.all_eq_true.mp (List.mem_filter.mp hm).2 p hp
+  simp [hr] at this
+
+/-- **fork_restores_commitments** — every reverted acknowledgement / timeout packet has its commitment
+    back, and it is the commitment of the packet with the ORIGINAL transfer target (the fulfiller, if
+    any, is not what the rollapp will acknowledge) -/
+theorem fork_restores_commitments (s : St) (rid : Bytes) (lv : Nat) :
+    ∀ p ∈ forkVictims s rid lv, (p.ptype == .onRecv) = false →
+      (p.chan, p.seq) ∈ (onHardFork s rid lv).commits ∧
+      ((p.chan, p.seq), p.orig.getD p.target) ∈ (onHardFork s rid lv).restored := by
+  intro p hp hr
+  have := foldl_revert_restores (forkVictims s rid lv) s p hp hr
+  rw [onHardFork_eq]
+  refine ⟨this.1, ?_⟩
+  have e : (restoreTarget p).target = p.orig.getD p.target := by
+    unfold restoreTarget; cases p.orig <;> rfl
+  rw [← e]; exact this.2
+
+/-- **fork_removes_orders** — the demand orders of the reverted packets go with them, all others stay -/
+theorem fork_removes_orders (s : St) (rid : Bytes) (lv : Nat) :
+    (∀ p ∈ forkVictims s rid lv, ∀ o ∈ (onHardFork s rid lv).orders, o.id ≠ pendKeyOf p) ∧
+    (∀ o ∈ s.orders, (∀ p ∈ forkVictims s rid lv, o.id ≠ pendKeyOf p) → o ∈ (onHardFork s rid lv).orders) :=
+  ⟨fun p hp o ho => foldl_revert_orders_gone _ s p hp o ho, fun o ho hn => foldl_revert_orders_keep _ s o ho hn⟩
+
+/-- **fork_no_order_without_packet** — the hook preserves both invariants: afterwards every order
+    still refers to a stored packet of its status, the index is exact, nothing reverted counts as released -/
+theorem fork_preserves_invariants (s : St) (rid : Bytes) (lv : Nat) (h : Inv s) (hi : IdxInv s) :
+    Inv (onHardFork s rid lv) ∧ IdxInv (onHardFork s rid lv) := by
+  have hv : ∀ p ∈ forkVictims s rid lv, p ∈ s.packets ∧ p.status = .pending := by
+    intro p hp
+    have := List.mem_filter.mp hp
+    exact ⟨this.1, forkRange_pending this.2⟩
+  have hpw : (forkVictims s rid lv).Pairwise (fun a b => pkey a ≠ pkey b) := List.Pairwise.filter _ (InvF.keys h.1)
+  exact ⟨⟨inv_onHardFork rid lv h.1, inv05_foldl_revertPacket _ h.2⟩, idx_foldl_revert _ h.1 hi hv hpw⟩
 
 -- ------------------------------------------------------------------ non-vacuity
 
@@ -380,11 +469,15 @@ example : (recvPacket (run cexInit (demoOps.take 3)) 0 2 7 (cexRecv 2)).2 = .asy
 example : getBal (run cexInit demoOps).bal 2 1 = 1100 := by decide
 example : ((run cexInit (demoOps.take 4)).packets.map (fun p => (p.status, p.target))) = [(.pending, 2)] := by decide
 example : pendingByAddr (run cexInit (demoOps.take 4)) 2 = some (run cexInit (demoOps.take 4)).packets := by decide
-example : ∀ o ∈ demoOps, PlainOp o := by
+example : ∀ o ∈ demoOps, BoundedOp o := by
   intro o ho
   simp only [demoOps, List.mem_cons, List.mem_nil_iff, or_false] at ho
-  rcases ho with rfl | rfl | rfl | rfl | rfl | rfl | rfl | rfl | rfl <;> simp [PlainOp]
-/-- the demo's channel table is well formed, so the partial theorem applies to its histories -/
+  rcases ho with rfl | rfl | rfl | rfl | rfl | rfl | rfl | rfl | rfl <;> simp [BoundedOp]
+example : ∀ o ∈ cexOps, BoundedOp o := by
+  intro o ho
+  simp only [cexOps, List.mem_cons, List.mem_nil_iff, or_false] at ho
+  rcases ho with rfl | rfl | rfl | rfl | rfl | rfl <;> simp [BoundedOp]
+/-- the demo's channel table is well formed, so the theorem applies to its histories -/
 example : CfgOk cexInit where
   raSep := by decide
   chSep := by decide
@@ -402,5 +495,22 @@ example : (match chanRollapp { cexInit with chans := cexChans ++ [{ hubId := [1]
     | .ok none => true | _ => false) = true := by decide
 example : (step (run cexInit (demoOps.take 7)) (.finalizeByKey 9 (encodePacketKey (rollappPacketKey .pending [114] 7 .onRecv [99, 55] 2)))).2 = .ok ∧
     (step (run cexInit (demoOps.take 7)) (.finalizeByKey 9 (encodePacketKey (rollappPacketKey .pending [114] 7 .onRecv [99, 55] 2)))).1.log.length = 2 := by decide
+
+/-- a fork history: two delayed receives (heights 3 and 7) and a sent packet timing out at height 8;
+    a2 fulfils the timeout order; fork at 5 reverts the two packets above 5 -/
+def forkInit : St := initSt 3 1000 ⟨0⟩ ⟨100000000000000000⟩ ⟨0⟩ [114] [115] cexChans
+def forkOps : List Op :=
+  [ .addState [114] 10,
+    .recv 0 1 3 (cexRecv 1), .recv 0 2 7 (cexRecv 2),
+    .send 1 0 0 500, .timeout 0 1 8,
+    .fulfill 2 (rollappPacketKey .pending [114] 8 .onTimeout [99, 48] 1) 50 ]
+
+example : ((run forkInit forkOps).packets.map (fun p => (p.proofHeight, p.target, p.orig))) = [(3, 1, none), (7, 2, none), (8, 2, some 1)] := by decide
+example : ((onHardFork (run forkInit forkOps) [114] 5).packets.map (·.proofHeight)) = [3] := by decide
+example : (onHardFork (run forkInit forkOps) [114] 5).receipts = [(0, 1)] ∧ (onHardFork (run forkInit forkOps) [114] 5).commits = [(0, 1)] := by decide
+/-- the restored commitment is the one of the original sender a1, not of the fulfiller a2 -/
+example : (onHardFork (run forkInit forkOps) [114] 5).restored = [((0, 1), 1)] := by decide
+example : (onHardFork (run forkInit forkOps) [114] 5).byAddr.map (·.1) = [1] ∧ (onHardFork (run forkInit forkOps) [114] 5).orders.length = 1 := by decide
+example : (step (run forkInit forkOps) (.fork [114] 5)).2 = .ok := by decide
 
 end DymVerif.C04
